@@ -31,7 +31,8 @@ CONSTANTS EMIT,      \* TRUE: print one EMIT record per completed vector
           Kinds,     \* operations explored, subset of AllKinds
           Shapes,    \* set of shapes, coded 10*B + H
           K,         \* pseudo-random data fills per (shape, parameters, termination pattern)
-          ExhCells,  \* B*H <= ExhCells: data lattice enumerated exhaustively
+          ExhCells,  \* B*H <= ExhCells: data lattice enumerated exhaustively (kinds in ExhKinds; others: one cell)
+          ExhKinds,
           Seed,      \* seed of the pseudo-random fills
           Quarter    \* TRUE: 1/4 joins the gamma / lambda lattice (H <= 3 only)
 
@@ -201,6 +202,7 @@ ChooseShape ==
        /\ k = "gae" => s[1] = 1
        /\ k \in {"ppoflat"} => s[1] >= 2
        /\ k = "enc" => s[1] \in {1, 2, 4}
+       /\ s[1] = 4 => k = "enc"              \* batch of four rows: encoder loss only
        /\ kd' = k
        /\ \E hs \in [1..s[1] -> 1..s[2]], g \in Gs(s[2]), l \in Gs(s[2]), sc \in Scales, wt \in Weights, et \in BOOLEAN :
             /\ k # "rtg" => \A b \in 1..s[1] : hs[b] = s[2]
@@ -250,7 +252,7 @@ FieldSet(f) == IF f \in Fields(kd) THEN MatSet(p, Lat(kd, f)) ELSE {Mat(p, Blank
 ChooseDataAll ==
   /\ st = "flags"
   /\ kd # "rtg" \/ \A b \in 1..p.B : p.Hs[b] = p.Hs[1]
-  /\ p.B * p.Hs[1] <= ExhCells
+  /\ p.B * p.Hs[1] <= (IF kd \in ExhKinds THEN ExhCells ELSE 1)
   /\ R' \in FieldSet("R") /\ V' \in FieldSet("V") /\ W' \in FieldSet("W")
   /\ X' \in IF UsesX(kd) THEN [1..p.B -> Xs] ELSE {[b \in 1..p.B |-> Zero]}
   /\ st' = "ready"
@@ -394,15 +396,17 @@ WitPar == [p EXCEPT !.g = Half, !.l = IF UsesL(kd) THEN Half ELSE Zero, !.rs = O
                     !.wd = One, !.wr = One, !.wdn = One, !.et = TRUE]
 WitVec == [R |-> Mat(p, IF kd = "enc" THEN Zero ELSE One), V |-> Mat(p, IF kd = "enc" THEN 2 ELSE Half),
            W |-> Mat(p, One), D |-> D, X |-> [b \in 1..p.B |-> One]]
+Canonical == /\ (kd # "enc" => p.g = Half) /\ (UsesL(kd) => p.l = Half)
+             /\ p.rs = One /\ p.wd = One /\ p.wr = One /\ p.et = TRUE
 DepTight ==
-  (st = "flags" /\ kd # "ppoflat") =>
+  (st = "flags" /\ kd # "ppoflat" /\ Canonical) =>
     \A o \in OutIds(p) : \A c \in Rel(WitPar, D, o) :
       \E x \in CellLat(c) : OutVal(WitPar, SetCell(WitVec, c, x), o) # OutVal(WitPar, WitVec, o)
 
 (* the dependency structure of one termination pattern, for perturbation tests on floats *)
 EmitDeps ==
   /\ st = "flags" /\ DEPS
-  /\ p.g = Half /\ (UsesL(kd) => p.l = Half) /\ p.rs = One /\ p.wd = One /\ p.wr = One /\ p.et = TRUE
+  /\ Canonical
   /\ st' = "deps"
   /\ UNCHANGED <<kd, p, D, R, V, W, X>>
   /\ Emit([kind |-> "deps", of |-> kd, B |-> p.B, Hs |-> p.Hs, D |-> D,
